@@ -144,6 +144,10 @@ def check_bifurcation(case):
     measures the cycle amplitude A just beyond it and asks for a precision p with p < A < 10 p (and A/30, 3A): whatever the
     amplitude-to-precision ratio, the calculation must return or raise within the cap."""
     pv, mix = make_pv(case)
+    with Trace(pv, cap=10, keep=False) as t0:
+        pass
+    if not t0.hooked:
+        raise Discard("unobservable: iterate trace not available (internal method not found)")
     probe = dict(case, precision=1e-7)
 
     def run(tp, prec=None):
@@ -178,6 +182,8 @@ def check_bifurcation(case):
         else:
             lo = mid
     ys = [e[0] for e in tr_hi.evals[-6:] if e[0] is not None]
+    if not tr_hi.hooked:
+        raise Discard("unobservable: iterate trace not available (internal method not found)")
     if len(ys) < 4:
         raise Discard("no cycle trace")
     amp = max(abs(ys[i + 1] - ys[i]) for i in range(len(ys) - 1))
